@@ -104,6 +104,50 @@ def produced_keys(ctx: Ctx, f: FuncInfo) -> dict[str, set[str]]:
     return out
 
 
+def _is_ctl_check(fn_node: ast.AST, test: ast.expr) -> bool:
+    """`test` is true exactly when the child already has a controller and it is not the offered one:
+    `self.ctl and self.ctl is not <new>` however it is spelled (locals copy-propagated, operands either way round)."""
+    from .common import edge_implies, expand
+
+    t = expand(fn_node, test, pure_only=False)
+    new = None
+    for c in ast.walk(t):
+        if isinstance(c, ast.Compare) and len(c.ops) == 1 and isinstance(c.ops[0], (ast.Is, ast.IsNot, ast.Eq, ast.NotEq)):
+            sides = [c.left, c.comparators[0]]
+            if any(norm(x) == "self.ctl" for x in sides):
+                new = next((norm(x) for x in sides if norm(x) != "self.ctl"), None)
+    if new is None:
+        return False
+    try:
+        goal = ast.parse(f"self.ctl and self.ctl is not ({new})", mode="eval").body
+    except SyntaxError:
+        return False
+    return edge_implies(goal, True, t) and edge_implies(t, True, goal)  # type: ignore[arg-type]
+
+
+def _ctl_change_check(ctx: Ctx, sp, cfg, node) -> list:
+    """Evidence that the controller-change check (raise SystemSchemaInconsistent) has been passed when `node` runs: inline in
+    set_parent, or in a private method of the same class whose call dominates `node`."""
+    out = []
+    for st in own_nodes(sp.node):
+        if isinstance(st, ast.If) and any(isinstance(b, ast.Raise) and "SystemSchemaInconsistent" in norm(b) for b in st.body) and _is_ctl_check(sp.node, st.test):
+            for x in cfg.nodes:
+                if x.kind == "test" and x.ast is st.test and cfg.edge_dominates(x, "false", node):
+                    out.append(f"inline: {norm(st.test)[:60]}")
+    for x in cfg.dominated_by(node, lambda y: y.kind == "stmt" and y.ast is not None and any(isinstance(c, ast.Call) and isinstance(c.func, ast.Attribute) and norm(c.func.value) == "self" for c in ast.walk(y.ast))):
+        for c in ast.walk(x.ast):
+            if isinstance(c, ast.Call) and isinstance(c.func, ast.Attribute) and norm(c.func.value) == "self" and sp.cls is not None:
+                h = next((k.methods[c.func.attr] for k in sp.cls.mro if c.func.attr in k.methods), None)
+                if h is None or h is sp:
+                    continue
+                for st in h.node.body:  # top level of the helper: every return of the helper lies behind it
+                    if isinstance(st, ast.If) and any(isinstance(b, ast.Raise) and "SystemSchemaInconsistent" in norm(b) for b in st.body) and _is_ctl_check(h.node, st.test):
+                        before = [s0 for s0 in h.node.body if s0.lineno < st.lineno]
+                        if not any(isinstance(r, ast.Return) for s0 in before for r in ast.walk(s0)):
+                            out.append(f"in self.{h.name}(): {norm(st.test)[:60]}")
+    return out
+
+
 def check(ctx: Ctx) -> list[RuleResult]:
     repo = ctx.repo
     out: list[RuleResult] = []
@@ -151,7 +195,7 @@ def check(ctx: Ctx) -> list[RuleResult]:
                         cfg = ctx.plain_cfg(sp)
                         node = cfg.nodes_of(n)[0]
                         d1 = cfg.dominated_by(node, lambda x: x.kind == "stmt" and "self._get_parent(" in norm(x.ast))
-                        d2 = [x for x in cfg.nodes if x.kind == "test" and "self.ctl and self.ctl is not ctl" in norm(x.ast) and cfg.edge_dominates(x, "false", node)]
+                        d2 = _ctl_change_check(ctx, sp, cfg, node)
                         # the parent must have accepted the child (its _add_child() may refuse) before the child records the bond
                         d3 = cfg.dominated_by(node, lambda x: x.kind == "stmt" and any(isinstance(c, ast.Call) and isinstance(c.func, ast.Attribute) and c.func.attr == "_add_child" for c in ast.walk(x.ast)))
                         if d1 and d2 and not d3:
